@@ -82,3 +82,9 @@ Definition dispatch_ok : bool :=
         (".NII.GZ", BNifti); (".nrrd", BSitk)]%string.
 Lemma dispatch_holds : dispatch_ok = true.
 Proof. vm_compute. reflexivity. Qed.
+
+(* capabilities pinned once the source has them: big-endian MetaImage files are read in order (raw and compressed), and the
+   SimpleITK-routed writer treats data without channel dimension like the native writers do *)
+Definition msb_and_nochannel_ok : bool := forallb (fun e => snd e) gen_meta_r_msb && Nat.eqb (length gen_meta_r_msb) 8 && gen_sitk_w_nochannel_same_as_c1.
+Lemma msb_and_nochannel_hold : msb_and_nochannel_ok = true.
+Proof. vm_compute. reflexivity. Qed.
